@@ -103,6 +103,10 @@ func (cs *caseState) initTwins() {
 			continue
 		}
 		c.payload = twinPayload(cs.no, g)
+		if c.plan.Sized && c.plan.ReqSize <= 1 { // payload-size dimension: the group's requests carry 0 / 1 byte of data (load_test.go)
+			c.reqData = sizedBytes("", c.plan.ReqSize, 0)
+			cs.tinyGroup[c.plan.ReqSize] = g
+		}
 		cs.twins[g] = append(cs.twins[g], c)
 		if cs.gates[g] == nil {
 			cs.gates[g] = &twinGate{group: g, open: make(chan struct{})}
@@ -468,9 +472,17 @@ func (cs *caseState) judgeTwins(v *verdict) {
 		for _, k := range keys {
 			l := subs[k]
 			runs := 0
-			for _, recs := range cs.invByID {
+			tiny := cs.tinyGroup[0] == g || cs.tinyGroup[1] == g
+			for id, recs := range cs.invByID {
 				for _, r := range recs {
 					if r.group == g && r.node == k.dst && r.src == k.src {
+						// a request of 0 / 1 byte carries no case number: a straggler of an earlier case (sent, its call
+						// gone, served only now) is indistinguishable from this group's requests - except that no call
+						// of this case used its message ID
+						if tiny && len(cs.owners[id]) == 0 {
+							v.sz.tinyNoOwn++
+							continue
+						}
 						runs++
 					}
 				}
